@@ -125,6 +125,7 @@ func checkC06(c *Check) {
 
 	c06StageOrder(c)
 	c06ResultsKept(c, "R7")
+	c06ActionParsed(c, "R8")
 
 	// ---- R2
 	c.Rule("R2", "no verdict is dropped: after an error of checkConnSender / checkRcpt / checkBody / applyResults the function neither reports success nor hands anything to a target", 8)
@@ -1066,5 +1067,207 @@ func c06ResultsKept(c *Check, rule string) {
 	})
 	if n < 5 {
 		c.Fail(rule, "stage-calls", token.NoPos, "undecided: fewer than five stage calls on check states in the pipeline package")
+	}
+}
+
+
+// c06ActionParsed: `fail_action reject` / `… quarantine` / `… ignore` (and the *_action directives of the checks that
+// use the same parser, e.g. authorize_sender) are turned into the two flags FailAction.Apply enforces. A verdict is
+// enforced only if the flag survives parsing: evaluated in the three worlds of the first argument, the value last
+// written to Reject / Quarantine on every path to a successful return is what the argument says – also when further
+// arguments (a custom reply) follow.
+func c06ActionParsed(c *Check, rule string) {
+	c.Rule(rule, "ParseActionDirective: in each of the worlds args[0] = reject / quarantine / ignore, on every path to a successful return the last value written to the result's Reject and Quarantine flags is the one the argument says (a custom reply after the action does not clear it)", 6)
+	r := c.need(rule, "framework/config/module", "", "ParseActionDirective")
+	if r == nil {
+		return
+	}
+	info := r.Info
+	sig := r.FI.Obj.Type().(*types.Signature)
+	if sig.Params().Len() != 1 {
+		c.Fail(rule, "ParseActionDirective:shape", r.FI.Decl.Pos(), "undecided: unexpected signature")
+		return
+	}
+	args := sig.Params().At(0)
+	isArg0 := func(e ast.Expr) bool {
+		ix, ok := ast.Unparen(e).(*ast.IndexExpr)
+		if !ok || objOf(info, ix.X) != types.Object(args) {
+			return false
+		}
+		z, ok := constInt(info.Types[ix.Index])
+		return ok && z == 0
+	}
+	// success returns and the variable they return
+	var rets []Pt
+	var res types.Object
+	for _, b := range r.F.G.Blocks {
+		q := Pt{b, len(b.Nodes)}
+		_, ret := r.F.Exit(q)
+		if ret == nil || len(ret.Results) != 2 || !isNilIdent(info, ret.Results[1]) {
+			continue
+		}
+		rets = append(rets, q)
+		if o := objOf(info, ret.Results[0]); o != nil {
+			res = o
+		}
+	}
+	if len(rets) == 0 {
+		c.Fail(rule, "ParseActionDirective:returns", r.FI.Decl.Pos(), "undecided: no successful return")
+		return
+	}
+	type write struct {
+		pt  Pt
+		val ast.Expr // nil: the zero value
+	}
+	writesOf := func(field string) []write {
+		var out []write
+		litVal := func(cl *ast.CompositeLit) ast.Expr {
+			for _, el := range cl.Elts {
+				if kv, ok := el.(*ast.KeyValueExpr); ok {
+					if id, ok := kv.Key.(*ast.Ident); ok && id.Name == field {
+						return kv.Value
+					}
+				}
+			}
+			return nil
+		}
+		for _, pt := range r.F.Points() {
+			switch st := pt.Node().(type) {
+			case *ast.AssignStmt:
+				if len(st.Lhs) != len(st.Rhs) {
+					for _, l := range st.Lhs {
+						if sel, ok := ast.Unparen(l).(*ast.SelectorExpr); ok && sel.Sel.Name == field && objOf(info, sel.X) == res {
+							out = append(out, write{pt, st.Rhs[0]}) // tuple: not a constant → undecided below
+						}
+					}
+					continue
+				}
+				for i, l := range st.Lhs {
+					if sel, ok := ast.Unparen(l).(*ast.SelectorExpr); ok && sel.Sel.Name == field && objOf(info, sel.X) == res && res != nil {
+						out = append(out, write{pt, st.Rhs[i]})
+					}
+					if res != nil && objOf(info, l) == res {
+						if cl, ok := ast.Unparen(st.Rhs[i]).(*ast.CompositeLit); ok {
+							out = append(out, write{pt, litVal(cl)})
+						} else {
+							out = append(out, write{pt, st.Rhs[i]})
+						}
+					}
+				}
+			case *ast.ValueSpec:
+				for i, nm := range st.Names {
+					if res != nil && info.Defs[nm] == res {
+						if i < len(st.Values) {
+							if cl, ok := ast.Unparen(st.Values[i]).(*ast.CompositeLit); ok {
+								out = append(out, write{pt, litVal(cl)})
+							} else {
+								out = append(out, write{pt, st.Values[i]})
+							}
+						} else {
+							out = append(out, write{pt, nil})
+						}
+					}
+				}
+			case *ast.ReturnStmt:
+				// a literal returned directly
+				if len(st.Results) == 2 && isNilIdent(info, st.Results[1]) {
+					if cl, ok := ast.Unparen(st.Results[0]).(*ast.CompositeLit); ok {
+						out = append(out, write{pt, litVal(cl)})
+					}
+				}
+			}
+		}
+		return out
+	}
+	for _, w := range []string{"reject", "quarantine", "ignore"} {
+		w := w
+		val := func(atom ast.Expr) (bool, bool) {
+			be, ok := ast.Unparen(atom).(*ast.BinaryExpr)
+			if !ok || (be.Op != token.EQL && be.Op != token.NEQ) {
+				return false, false
+			}
+			var cs string
+			var okc bool
+			switch {
+			case isArg0(be.X):
+				cs, okc = constString(info, be.Y)
+			case isArg0(be.Y):
+				cs, okc = constString(info, be.X)
+			}
+			if !okc {
+				return false, false
+			}
+			return (cs == w) == (be.Op == token.EQL), true
+		}
+		binWorld := r.F.World(val)
+		world := func(b *cfgBlock, i int) bool {
+			if cond, isCase := r.F.Cond(b); cond != nil && isCase {
+				if tag := r.F.CaseTag(b); tag != nil && isArg0(tag) {
+					if cs, ok := constString(info, cond); ok {
+						return (cs == w) != (i == 0)
+					}
+				}
+				return false
+			}
+			return binWorld(b, i)
+		}
+		for _, field := range []string{"Reject", "Quarantine"} {
+			want := (field == "Reject" && w == "reject") || (field == "Quarantine" && w == "quarantine")
+			key := "ParseActionDirective:" + w + ":" + field
+			ws := writesOf(field)
+			if len(ws) == 0 {
+				c.Fail(rule, key, r.FI.Decl.Pos(), "undecided: the flag is never written")
+				continue
+			}
+			isWrite := func(q Pt) bool {
+				for _, x := range ws {
+					if x.pt == q {
+						return true
+					}
+				}
+				return false
+			}
+			msg := ""
+			for _, x := range ws {
+				v, known := false, true
+				if x.val != nil {
+					if tv, ok := info.Types[x.val]; ok && tv.Value != nil && tv.Value.Kind() == constant.Bool {
+						v = constant.BoolVal(tv.Value)
+					} else {
+						v, known = evalBoolUnder(x.val, val)
+					}
+				}
+				if known && v == want {
+					continue
+				}
+				// is this write the last one on some path to a successful return in this world? (it must itself be reachable there)
+				if _, reachable := r.F.Reach(Query{From: r.Entry(), Inclusive: true, Target: func(q Pt) bool { return q == x.pt }, AvoidEdge: world}); !reachable {
+					continue
+				}
+				tgt := func(q Pt) bool { return isPt(rets)(q) }
+				var path []Pt
+				var f bool
+				if isPt(rets)(Pt{x.pt.B, len(x.pt.B.Nodes)}) && x.pt.I == len(x.pt.B.Nodes)-1 {
+					if _, isRet := x.pt.Node().(*ast.ReturnStmt); isRet {
+						f = true
+					}
+				}
+				if !f {
+					path, f = r.F.Reach(Query{From: []Pt{x.pt}, Target: tgt, Avoid: func(q Pt) bool { return q != x.pt && isWrite(q) }, AvoidEdge: world})
+				}
+				if f {
+					what := "false"
+					if x.val != nil {
+						what = exprStr(x.val)
+					}
+					if !known {
+						msg = "undecided: with `" + w + "` the flag " + field + " is last written with " + what + ", which the argument does not decide"
+					} else {
+						msg = "with the action `" + w + "` the flag " + field + " of the parsed action ends up " + what + " (line " + itoa(c.P.Fset.Position(x.pt.Node().Pos()).Line) + " is the last write on a path to the successful return): the verdict of every check configured this way is not enforced as configured – `reject` with a custom reply becomes `ignore`: " + r.F.Describe(path)
+					}
+				}
+			}
+			c.Hold(rule, key, r.FI.Decl.Pos(), msg == "", msg)
+		}
 	}
 }
